@@ -304,7 +304,8 @@ func (d *Decoder) readUntypedList(tag byte) (interface{}, error) {
 			}
 			holder.change(aryValue)
 		} else {
-			ary[j] = it
+			// a nested list arrives in its ref holder (or as reflect.Value): store the list itself
+			ary[j], _ = EnsureInterface(it, nil)
 		}
 	}
 
